@@ -83,7 +83,7 @@ class Env:
 # ---- per-property instance generators ----------------------------------------------------------------
 def gen_c02(env, tier):
     rnd, gen = env.rnd, env.gen
-    n_cases = 500 if tier == "quick" else 12000
+    n_cases = 2500 if tier == "quick" else 30000
     for _ in range(n_cases):
         nd = rnd.choice([0, 1, 1, 2, 2, 3, 3, 4])
         case = gen.shared_case("count", nd=nd, maxrows=12)
@@ -115,7 +115,7 @@ def gen_c02(env, tier):
 
 def gen_c03(env, tier, prop="C03", funcs=None):
     rnd, gen = env.rnd, env.gen
-    n_cases = 400 if tier == "quick" else 10000
+    n_cases = (3000 if prop == "C03" else 400) if tier == "quick" else 40000
     for q in range(n_cases):
         case = gen.shared_case(rnd.choice(funcs or cb.SHARED), maxrows=10)
         if not case.dims and case.func == "count" and (case.weights is None or case.weights["kind"] == "scalar"):
@@ -145,7 +145,7 @@ def gen_c03(env, tier, prop="C03", funcs=None):
 
 def gen_c04(env, tier):
     rnd, gen = env.rnd, env.gen
-    n_cases = 150 if tier == "quick" else 4000
+    n_cases = 700 if tier == "quick" else 12000
     for _ in range(n_cases):
         case = gen.shared_case(maxrows=8)
         # bias towards missing rows (fact and weight) and zero weights
@@ -170,7 +170,7 @@ def gen_c04(env, tier):
 
 def gen_c05(env, tier):
     rnd, gen = env.rnd, env.gen
-    n_cases = 40 if tier == "quick" else 1200
+    n_cases = 150 if tier == "quick" else 3000
     for _ in range(n_cases):
         nd = rnd.choice([1, 2, 2, 3])
         case = gen.shared_case(nd=nd, maxrows=8)
@@ -198,7 +198,7 @@ def gen_c05(env, tier):
 
 def gen_c13(env, tier):
     rnd, gen = env.rnd, env.gen
-    n_cases = 120 if tier == "quick" else 3000
+    n_cases = 500 if tier == "quick" else 8000
     shapes = [(2,), (3,), (1,), (4,), (2, 3), (3, 2), (1, 4), (2, 1)]
     for _ in range(n_cases):
         nd = rnd.choice([1, 2, 2, 3])
@@ -249,7 +249,7 @@ def stat_case(env, func, nd=None, extra=None, maxrows=8):
 
 def gen_c18(env, tier):
     rnd = env.rnd
-    n_cases = 500 if tier == "quick" else 12000
+    n_cases = 4000 if tier == "quick" else 60000
     for _ in range(n_cases):
         func = rnd.choice(cb.STATS)
         case = stat_case(env, func)
@@ -283,7 +283,7 @@ def run_wquantile(env, case):
 
 def gen_c14(env, tier):
     rnd, gen = env.rnd, env.gen
-    n_cases = 400 if tier == "quick" else 10000
+    n_cases = 3000 if tier == "quick" else 40000
     for _ in range(n_cases):
         nd = rnd.choice([1, 2, 2, 3, 3, 4])
         n = rnd.choice([0, 1, 2, 3, 5, 8])
